@@ -214,6 +214,7 @@ func (g *vgen) boundary(full bool) {
 		g.tx(1000, dep(1, "ca", 1), call(1, "ca", "inc", 10))
 		g.sim(1000, tail...)
 		g.o.Op("vq bad ca")
+		g.o.Op("vq poke ca")
 		if i%3 == 0 {
 			g.tx(3000, tail...)
 		}
@@ -385,7 +386,7 @@ func (g *vgen) random(cases int, restarts bool) {
 					g.sim(fee, msgs...)
 				}
 			default:
-				g.o.Op("vq %s %s", kit.Pick(r, []string{"get", "bad"}), kit.Pick(r, []string{"ca", "cb"}))
+				g.o.Op("vq %s %s", kit.Pick(r, []string{"get", "bad", "poke"}), kit.Pick(r, []string{"ca", "cb"}))
 			}
 		}
 		// the closing txs exercise everything a failed tx may have touched
@@ -446,6 +447,7 @@ var vMalformed = []string{
 	"vq get",
 	"vq get lib",
 	"vq put ca",
+	"vq poke",
 	"vrestart now",
 }
 
